@@ -1,10 +1,99 @@
 """Which engine jobs serve which property (single source for ./check and gen_manifest.py)."""
 
-CHECKS = {}
+SEQX = {"name": "seqx-chan", "crate": "seqx", "bin": "seqx", "kind": "verif", "args": [],
+        "about": "E2: exhaustive single-thread operation/poll/drop histories on the real channels vs a nondeterministic FIFO reference model (stateless DFS, history = state)"}
+SEQX_ASAN = {"name": "seqx-chan-asan", "crate": "seqx", "bin": "seqx", "kind": "asan", "args": ["--space", "quick"], "tiers": ("thorough",),
+             "about": "E2 under AddressSanitizer: the quick space re-executed with every heap access checked"}
+POLICYX = {"name": "policyx", "crate": "policyx", "bin": "policyx", "kind": "verif", "args": [],
+           "about": "E2: exhaustive call sequences on each public eviction policy vs a bookkeeping model"}
+IOCX = {"name": "iocx", "crate": "iocx", "bin": "iocx", "kind": "verif", "args": [],
+        "about": "E2 + gate scheduler: exhaustive registration/resolution histories; all factory-gate schedules of concurrent first resolution"}
+
+LOGX = {"name": "logx", "crate": "logx", "bin": "logx", "kind": "verif", "args": ["--tmp", "{scratch}"],
+        "about": "E2: exhaustive strings through both encoders; exhaustive write/clock-step/restart sequences through the real roller with an injected clock"}
+
+PROCX = {"name": "procx", "crate": "procx", "bin": "procx", "kind": "verif", "args": [],
+         "about": "E4: one child process per logging configuration (process-global dispatchers); exhaustive configuration lattice × event script vs a reference routing function; shutdown cut at every script position"}
+
+CHAN_ASSUME = [
+    "single OS thread per history: interleavings are the loom engine's job (loomx), not this one's",
+    "a future is dropped before the handle it borrows; a Stream poll and a future of the same handle are never awaited at once (the borrow checker enforces both)",
+    "one task per handle: every waker handed out through a handle wakes the same task; a task that drops a future re-polls what it still awaits before suspending",
+    "blocking forms are issued only where the reference model says they cannot wait (bounded mpsc: even unpublished consumer progress must leave room)",
+    "values outside the id alphabet are irrelevant by parametricity (the channels never inspect T)",
+]
+CHAN_RULE = ("all histories over the per-flavour alphabet (try/blocking/batch/in-place sends and receives, futures: create/poll-task/drop, "
+             "Stream polls, clone/close/drop/convert of ≤2 handles per side) up to the depth in each scenario's bound, from the initial state, "
+             "from warmed-up cursors and from start states with pending futures; every history re-executed on fresh real objects and checked "
+             "step by step against the FIFO/handle reference model, then the idle-stall probe and the drop ledger; "
+             "non-trivial = ≥1 successful send and ≥1 of {successful receive, Full, Closed, Disconnected, partial batch, Pending}")
+
+
+def chan(level_text, design_ref, extra_jobs=()):
+    return {
+        "jobs": [SEQX] + list(extra_jobs),
+        "level": "model_checking",
+        "level_text": level_text,
+        "level_note": "trusts the reference model in engines/seqx/src/chan/model.rs (≈700 lines, FIFO + handle states + pending-future nondeterminism) and the adapters; depth/handle/future bounds as reported per scenario; thread interleavings are not explored by this engine",
+        "technique": "stateless exhaustive DFS over operation histories of the real implementation vs reference model",
+        "design_ref": design_ref,
+        "rule": CHAN_RULE,
+        "assumptions": CHAN_ASSUME,
+    }
+
+
+CHECKS = {
+    "C01": chan("every sequential API program up to the bound delivers exactly the values whose send succeeded, hands back failed ones, and failed operations change nothing — decided on every history, not sampled", "§4 C01, §2 E2"),
+    "C02": chan("in every explored history without overlapping operations the channel equals a FIFO queue step by step (single, batch, in-place, across ring wrap / slab boundaries reached by warm-ups)", "§4 C02, §2 E2"),
+    "C03": chan("try_send succeeds exactly when the model queue is neither full nor closed, len()/is_full()/capacity() agree with the model after every step, for capacities 1..3, rendezvous and oneshot", "§4 C03, §2 E2"),
+    "C04": chan("every order of clone/close/drop/convert on ≤2 handles per side within the bound: drain then Disconnected, Closed hands the value back, closed handles reject every form, close is idempotent", "§4 C04, §2 E2"),
+    "C06": chan("idle-stall probe after every explored history: when no task is runnable no pending future/stream may be able to complete; cancellation at every point of every history loses/duplicates nothing", "§4 C06, §2 E2"),
+    "C09": chan("drop ledger after every explored history and every teardown order in the alphabet: each payload instance dropped exactly once; the quick space is re-run under AddressSanitizer in the thorough tier", "§4 C09, §2 E2", extra_jobs=(SEQX_ASAN,)),
+    "C14": {
+        "jobs": [POLICYX],
+        "level": "model_checking",
+        "level_text": "every admit/access/remove/evict/clear call sequence up to the depth on every built-in policy, each executed on a fresh real policy object against a bookkeeping model",
+        "level_note": "trusts the bookkeeping model in engines/policyx/src/model.rs; Random's internal coin is not enumerable (its oracles are choice-independent); TinyLFU sketch hashing is randomly seeded",
+        "technique": "stateless exhaustive DFS over call sequences of the real policy objects vs reference model",
+        "design_ref": "§5 C14",
+        "rule": "all call sequences over on_admit/on_access (keys {1,2,3} × costs {1,2,0}), on_remove, evict(n∈{1,2,5}), clear up to the depth, closed by evict(∞); non-trivial = at least one evict returned a victim",
+        "assumptions": ["policies are driven directly through the public CachePolicy trait (no cache around them)"],
+    },
+    "C18": {
+        "jobs": [IOCX],
+        "level": "model_checking",
+        "level_text": "every registration/resolution history up to the depth on instance, local and global containers against a map model (exhaustive); concurrent first resolution enumerated over all schedules at factory-gate granularity",
+        "level_note": "schedules inside once_cell/dashmap are not intercepted: the concurrent half is exhaustive only at gate granularity and uses quiescence timeouts to recognise a thread blocked inside the library",
+        "technique": "stateless exhaustive DFS over histories; exhaustive DFS over gate-level schedules of real threads under a token scheduler",
+        "design_ref": "§6 C18",
+        "rule": "Part A: all histories over registration forms × 9 keys × get up to depth d on fresh containers; Part B: all token-scheduler choice sequences of 2–4 threads at gates (thread start, factory entry/exit, between operations); non-trivial = ≥1 successful get after ≥2 registrations / ≥2 threads overlapping in a factory",
+        "assumptions": ["a thread asleep inside once_cell for the quiescence timeout is blocked (timing-assisted)"],
+    },
+    "C19": {
+        "jobs": [PROCX],
+        "level": "model_checking",
+        "level_text": "every configuration of the stated logger lattice (names root/a/a::b/ab × level × additivity × wiring) × every (target, level, front end) event executed in its own process against a 30-line reference routing function; shutdown/drop cut after every script position; emitter-thread shapes",
+        "level_note": "configuration and cut-position dimensions are exhaustive; the interleaving of writer/drainer/emitter threads with shutdown is whatever the OS produces (repeated, labelled non-exhaustive in the scenario) — no installed tool intercepts std::thread + real files",
+        "technique": "exhaustive enumeration of configurations × events on the real logging stack (one process each) vs reference routing model",
+        "design_ref": "§6 C19",
+        "rule": "route: complete products of the logger lattice listed in the scenario bound × 60-event script (5 targets × 3 levels × log/tracing, forward and reverse); shutdown-cuts: every cut position × {shutdown, drop} × drain modes; non-trivial = ≥1 event delivered and ≥1 filtered",
+        "assumptions": ["a child that exceeds the kill timeout twice is a hang, once is machine noise"],
+    },
+    "C20": {
+        "jobs": [LOGX],
+        "level": "model_checking",
+        "level_text": "every string up to length L over an escaping-critical alphabet through the JSON and pattern encoders, every pattern of ≤k directives; every write/clock-step/restart sequence up to the depth through the real rolling appender (injected clock, real files) against a list-of-records model",
+        "level_note": "trusts the record-list model and the serde_json parser used as the JSON oracle; the roller clock is injected through hook H6 (cfg-only); strings outside the alphabet / longer than L and histories deeper than d are not covered",
+        "technique": "exhaustive enumeration of inputs and of operation histories on the real encoder/roller code vs reference model",
+        "design_ref": "§6 C20",
+        "rule": "encoders: all strings ≤ L over {a,\",\\,\\n,U+0001,é,U+2028,{} in message/target/field key/field value, all field value types incl. non-finite floats, all patterns ≤ k directives; roller: all sequences over Write(len∈{1,limit−1,limit,limit+1}), Step(1s|1 period), Restart for each rolling policy (size × period × retention × compression); non-trivial = string needs escaping / ≥1 roll happened",
+        "assumptions": ["the file system under the scratch directory behaves like a POSIX file system (tmpfs when available)"],
+    },
+}
 
 # properties not (yet) claimed: id -> reason (kept current; see DESIGN.md)
 NOT_APPLICABLE = {
     f"C{i:02d}": "check not built yet in this session (engine under construction; see DESIGN.md plan)" for i in range(1, 21)
 }
 
-HOOK_COMMITS = []
+HOOK_COMMITS = ["750f6f3"]
